@@ -256,10 +256,14 @@ def gen_item(rng, names=None, want_enum=None, allow_attrs=True, plain=False, abs
                 out.append(f'#[derive_ex(Default(bound({T}: helpers::Mk)))] #[default(<{T} as helpers::Mk>::mk())]')
         return ' '.join(out) + (' ' if out else '')
 
+    last_types = []
+
     def fields(kind, nf, base):
         fs = []
+        del last_types[:]
         for i in range(nf):
             ty = rng.choice(ftypes)
+            last_types.append(ty)
             import re as _re
             for pn in (T, U, N, LT):
                 if _re.search(r"(?<![A-Za-z0-9_#':])" + _re.escape(pn) + r'(?![A-Za-z0-9_])', ty):
@@ -290,7 +294,18 @@ def gen_item(rng, names=None, want_enum=None, allow_attrs=True, plain=False, abs
             kind = rng.choice(['unit', 'tuple', 'named'])
             nf = 0 if kind == 'unit' else rng.choice([0, 1, 2, 3])
             mark = '#[default] ' if (dflt and i == dv and (nv > 1 or rng.random() < 0.5)) else ''
-            vs.append(f'{mark}{n.variants[i]}{fields(kind, nf, i)}')
+            fstr = fields(kind, nf, i)
+            # a variant-level `bound(..)` that *stops* the resolution for this variant (no `..`) and supplies what the
+            # variant's own fields need: the other variants must keep their default bounds
+            vb = ''
+            cand = [t for t in ('Clone', 'Debug') if t in traits]
+            if cand and has_T and allow_attrs and not plain and rng.random() < 0.2:
+                tr = rng.choice(cand)
+                pth = {'Clone': '::core::clone::Clone', 'Debug': '::core::fmt::Debug'}[tr]
+                gen_tys = [t for t in last_types if any(uses(t, p) for p in (T, U, N)) and 'Self' not in t]
+                preds = ', '.join(f'{t}: {pth}' for t in gen_tys)
+                vb = rng.choice([f'#[derive_ex({tr}(bound({preds})))] ', f'#[derive_ex({tr}, bound({preds}))] '])
+            vs.append(f'{vb}{mark}{n.variants[i]}{fstr}')
         body = ' { ' + ', '.join(vs) + ' }'
         src = f'{head}\npub enum {n.ty}{generics}{where}{body}'
         shape = f'enum{nv}'
